@@ -103,8 +103,8 @@ pub trait Property: Sync + Send {
     /// per-case wall-clock budget before the watchdog declares a hang (seconds)
     fn hang_budget_s(&self, tier: Tier) -> u64 {
         match tier {
-            Tier::Quick => 60,
-            Tier::Thorough => 300,
+            Tier::Quick => 20,
+            Tier::Thorough => 120,
         }
     }
     /// whether a confirmed hang is a violation of this property (only C14)
@@ -392,6 +392,17 @@ pub fn minimise(case: &Case, fails: &dyn Fn(&Case) -> bool, max_steps: usize) ->
 // ------------------------------------------------------------------------------------------
 // worker
 
+/// resident-set budget per worker: a case that drives the process above this is stopped and
+/// reported as inconclusive (never as a verdict)
+const MEM_BUDGET: u64 = 6 << 30;
+
+fn rss_bytes() -> u64 {
+    std::fs::read_to_string("/proc/self/statm")
+        .ok()
+        .and_then(|t| t.split_whitespace().nth(1).and_then(|x| x.parse::<u64>().ok()))
+        .map_or(0, |pages| pages * 4096)
+}
+
 static CASE_SEQ: AtomicU64 = AtomicU64::new(0);
 static CURRENT: Mutex<Option<Case>> = Mutex::new(None);
 
@@ -459,6 +470,14 @@ pub fn run_worker(prop: &dyn Property, known: &Known, wa: &WorkerArgs) -> i32 {
                 if now != last {
                     last = now;
                     since = Instant::now();
+                } else if now != 0 && rss_bytes() > MEM_BUDGET {
+                    let text = CURRENT
+                        .lock()
+                        .ok()
+                        .and_then(|g| g.as_ref().map(|c| c.to_text()))
+                        .unwrap_or_default();
+                    let _ = std::fs::write(&hang_path, text);
+                    std::process::exit(4);
                 } else if now != 0 && since.elapsed().as_secs() >= budget_s {
                     let text = CURRENT
                         .lock()
@@ -541,7 +560,14 @@ pub fn run_worker(prop: &dyn Property, known: &Known, wa: &WorkerArgs) -> i32 {
             t.push('\n');
             let _ = j.write_all_at(t.as_bytes(), 0);
         }
-        let v = eval(&case);
+        let mut v = eval(&case);
+        // a check may refuse a case outside its generated domain (only reachable while shrinking);
+        // such a case is neither a pass nor a failure of the property
+        if let Err(m) = &v {
+            if m.starts_with("harness:") {
+                v = Ok(Info::new(false).class("rejected_outside_generated_domain"));
+            }
+        }
         let mut st = stats.borrow_mut();
         if st.stopped {
             // shrinking re-executions are not counted
@@ -585,7 +611,7 @@ pub fn run_worker(prop: &dyn Property, known: &Known, wa: &WorkerArgs) -> i32 {
                 if let Ok(mut g) = CURRENT.lock() {
                     *g = Some(c.clone());
                 }
-                matches!(catch(|| eval(c)), Ok(Err(_)))
+                matches!(catch(|| eval(c)), Ok(Err(m)) if !m.starts_with("harness:"))
             };
             let min = if fails(&case) {
                 minimise(&case, &fails, 20_000)
@@ -949,6 +975,7 @@ pub fn run_driver(prop: &dyn Property, tier: Tier, verif_dir: &Path) -> i32 {
     let mut known_hits: BTreeMap<String, u64> = BTreeMap::new();
     let mut hashes: Vec<u64> = vec![];
     let mut hash_overflow = false;
+    let mut hang_seen: HashSet<String> = HashSet::new();
     for (ji, j) in jobs.iter().enumerate() {
         let st = match statuses[ji] {
             Some(s) => s,
@@ -983,10 +1010,20 @@ pub fn run_driver(prop: &dyn Property, tier: Tier, verif_dir: &Path) -> i32 {
         }
         match st.code() {
             Some(0) => {}
-            Some(3) => {
-                // watchdog: confirm alone with twice the budget
+            Some(4) => {
                 let hp = j.out.with_extension("hang");
                 let text = std::fs::read_to_string(&hp).unwrap_or_default();
+                inconclusive.push(format!("worker {} {} exceeded the memory budget on case: {}", j.profile, j.index, trunc(&text, 200)));
+                continue;
+            }
+            Some(3) => {
+                // watchdog: confirm alone with twice the budget (each distinct case once, at most 3)
+                let hp = j.out.with_extension("hang");
+                let text = std::fs::read_to_string(&hp).unwrap_or_default();
+                if !hang_seen.insert(text.clone()) || hang_seen.len() > 3 {
+                    inconclusive.push(format!("worker {} {} hit the per-case watchdog (duplicate or over the confirmation limit): {}", j.profile, j.index, trunc(&text, 200)));
+                    continue;
+                }
                 let budget_s = prop.hang_budget_s(tier) * 2;
                 let mut ch = Command::new(&j.exe)
                     .arg("replay")
